@@ -237,6 +237,15 @@ let handle line =
       let ((b, r), o) = BufModel.number_to_str (z_of_hex bits) u (int_to_z (int_of_string len)) in
       if o then "N2S OVERFLOW" else
       Printf.sprintf "N2S %s %d" (S.concat "" (L.map (function Some z -> Printf.sprintf "%02x" (z_to_int z) | None -> "--") b)) (z_to_int r)
+  | ["ARR"; fmt; size; h] ->
+      let sz = int_of_string size in
+      let bytes = unhex_ints h in
+      let rec elems l = if L.length l < sz then [] else
+        let rec take k l = if k = 0 then ([], l) else (match l with x :: r -> let (a, b) = take (k-1) r in (x :: a, b) | [] -> ([], [])) in
+        let (e, rest) = take sz l in
+        (L.fold_right (fun b acc -> zadd (zmul acc (int_to_z 256)) (int_to_z b)) e Z0) :: elems rest in
+      let (b, c) = BufModel.array_binary true (int_to_z (int_of_string fmt)) (nat_of sz) (elems bytes) in
+      Printf.sprintf "ARR %s %d" (hexz b) (z_to_int c)
   | ["LAYOUT"; digits; decpt; prec; neg] ->
       let ds = L.init (S.length digits) (fun i -> int_to_z (Char.code digits.[i])) in
       let (out, oob) = Dtostre.layout ds (int_to_z (int_of_string decpt)) (int_to_z (int_of_string prec)) (neg = "1") in
